@@ -6,16 +6,19 @@ the Lean modules and generators of every property."""
 #         gens module (tools/gens/<g>.py), props: property -> list of Lean Props modules
 UNITS = {
     "ct": {"driver": "C18", "harness": "ops_ct", "gens": None, "props": {"C18": ["CxVerif.Props.C18"]}},
+    "ktie": {"driver": "KTie", "harness": "ops_ktie", "gens": "ktie", "props": {}},
     "leak": {"driver": None, "harness": None, "gens": None, "props": {"C19": ["CxVerif.Props.C19.Leak"]}},
     "blake2": {"driver": "Blake2", "harness": "ops_blake2", "gens": "blake2",
                "props": {"C01": ["CxVerif.Props.C01.Blake2"], "C02": ["CxVerif.Props.C02.Blake2"], "C20": ["CxVerif.Props.C20.Blake2"]}},
     "fe64": {"driver": "Fe64", "harness": "ops_fe64", "gens": "fe64", "props": {}},
-    "poly1305": {"driver": "Poly1305", "harness": "ops_poly1305", "gens": "poly1305", "props": {}},
+    "poly1305": {"driver": "Poly1305", "harness": "ops_poly1305", "gens": "poly1305",
+                 "props": {"C05": ["CxVerif.Props.C05.Poly1305", "CxVerif.Props.C05.KernelTie"], "C09": ["CxVerif.Props.C09.Poly1305"]}},
     "scalar64": {"driver": "Scalar64", "harness": "ops_scalar64", "gens": "scalar64", "props": {}},
     "sha2": {"driver": "Sha2", "harness": "ops_sha2", "gens": "sha2",
              "props": {"C01": ["CxVerif.Props.C01.Sha2"], "C02": ["CxVerif.Props.C02.Sha2"]}},
     "mackdf": {"driver": "MacKdf", "harness": "ops_mackdf", "gens": "mackdf", "props": {}},
-    "sha3": {"driver": "Sha3", "harness": "ops_sha3", "gens": "sha3", "props": {}},
+    "sha3": {"driver": "Sha3", "harness": "ops_sha3", "gens": "sha3",
+             "props": {"C01": ["CxVerif.Props.C01.Sha3"], "C02": ["CxVerif.Props.C02.Sha3"]}},
     "stream": {"driver": "Stream", "harness": "ops_stream", "gens": "stream",
                "props": {"C03": ["CxVerif.Props.C03.Stream"], "C04": ["CxVerif.Props.C04.Stream"], "C16": ["CxVerif.Props.C16.ChaCha"]}},
     "ed25519": {"driver": "Ed25519", "harness": "ops_ed25519", "gens": "ed25519", "props": {}},
